@@ -223,6 +223,94 @@ fn unicode_ast(path: &str) -> Result<Value, String> {
     Ok(Value::Array(out))
 }
 
+/// A rule file or Unicode file as the rule engine builds it (second implementation of Replacement::build /
+/// TestArray::build / SpeechPattern::build / UnicodeDef::build on the YAML text, written with the library's YAML crate):
+/// a list of {"include": file} | {"name", "tag": [..], "match", "replace": items} | {"char": key, "replace": items}.
+/// item = {"k": "T"} | {"k": "X", "x": xpath} | {"k": "S", "cmd", "body": items} | {"k": "N", "body": items} |
+///        {"k": "?", "entries": [{"cond": bool, "then": part, "else": part}]} | {"k": "W", "body"} | {"k": "V"} |
+///        {"k": "+", "x", "body"} | {"k": "L"} | {"k": "!", "key"} (not a replacement the engine accepts)
+/// part = null | {"r": items} | {"t": entries}
+fn rules_tast(path: &str) -> Result<Value, String> {
+    use yaml_rust::{Yaml, YamlLoader};
+    let content = std::fs::read_to_string(path).map_err(|e| format!("HARNESS: can't read {}: {}", path, e))?;
+    let docs = YamlLoader::load_from_str(&content).map_err(|e| format!("HARNESS: yaml error in {}: {}", path, e))?;
+    fn list(y: &Yaml) -> Vec<Value> {
+        match y {
+            Yaml::Array(a) => a.iter().map(item).collect(),
+            _ => vec![item(y)],
+        }
+    }
+    fn part(h: &Yaml, rkey: &str, tkey: &str) -> Value {
+        let r = &h[rkey];
+        let t = &h[tkey];
+        if !t.is_badvalue() && r.is_badvalue() { json!({"t": entries(t)}) }
+        else if !r.is_badvalue() && t.is_badvalue() { json!({"r": list(r)}) }
+        else { Value::Null }
+    }
+    fn entries(y: &Yaml) -> Vec<Value> {
+        let tests: Vec<&Yaml> = match y { Yaml::Hash(_) => vec![y], Yaml::Array(a) => a.iter().collect(), _ => vec![] };
+        let mut out = vec![];
+        for t in tests {
+            let if_part = &t[if out.is_empty() {"if"} else {"else_if"}];
+            if !if_part.is_badvalue() {
+                out.push(json!({"cond": true, "then": part(t, "then", "then_test"), "else": part(t, "else", "else_test")}));
+            } else {
+                out.push(json!({"cond": false, "then": Value::Null, "else": part(t, "else", "else_test")}));
+            }
+        }
+        out
+    }
+    fn body(v: &Yaml, key: &str) -> Vec<Value> { if v[key].is_badvalue() { vec![] } else { list(&v[key]) } }
+    fn item(y: &Yaml) -> Value {
+        let h = match y { Yaml::Hash(h) if h.len() == 1 => h, _ => return json!({"k": "!", "key": "(shape)"}) };
+        let (k, v) = h.iter().next().unwrap();
+        let key = k.as_str().unwrap_or("");
+        match key {
+            "t" | "T" | "ct" | "CT" | "ot" | "OT" => json!({"k": "T", "ne": v.as_str().map(|s| !s.trim().is_empty()).unwrap_or(false)}),
+            "x" => json!({"k": "X", "x": v.as_str().unwrap_or("")}),
+            "pause" | "rate" | "pitch" | "volume" | "audio" | "gender" | "voice" | "spell" | "SPELL" | "bookmark" | "pronounce" | "PRONOUNCE" =>
+                json!({"k": "S", "cmd": key.to_ascii_lowercase(), "body": if v.as_hash().is_some() && key.to_ascii_lowercase() != "pronounce" { body(v, "replace") } else { vec![] }}),
+            "intent" => json!({"k": "N", "body": body(v, "children")}),
+            "test" => json!({"k": "?", "entries": entries(v)}),
+            "with" => json!({"k": "W", "body": body(v, "replace")}),
+            "set_variables" => json!({"k": "V"}),
+            "insert" => json!({"k": "+", "x": v["nodes"].as_str().unwrap_or(""), "body": body(v, "replace")}),
+            "translate" => json!({"k": "L"}),
+            _ => json!({"k": "!", "key": key}),
+        }
+    }
+    let mut out: Vec<Value> = vec![];
+    for d in &docs {
+        if let Yaml::Array(es) = d {
+            for e in es {
+                if let Yaml::Hash(h) = e {
+                    let get = |key: &str| h.get(&Yaml::String(key.to_string()));
+                    if let Some(inc) = get("include") { out.push(json!({"include": inc.as_str().unwrap_or("")})); continue; }
+                    if get("name").is_some() || get("tag").is_some() {
+                        let tags: Vec<String> = match get("tag") {
+                            Some(Yaml::String(s)) => vec![s.clone()],
+                            Some(Yaml::Array(a)) => a.iter().filter_map(|x| x.as_str().map(|s| s.to_string())).collect(),
+                            _ => vec![],
+                        };
+                        let m = match get("match") {
+                            Some(Yaml::String(s)) => s.clone(),
+                            Some(Yaml::Array(a)) => a.iter().filter_map(|x| x.as_str()).collect::<Vec<_>>().join(" "),
+                            _ => String::new(),
+                        };
+                        out.push(json!({"name": get("name").and_then(|x| x.as_str()).unwrap_or(""), "tag": tags, "match": m,
+                                        "replace": get("replace").map(list).unwrap_or_default()}));
+                    } else if h.len() == 1 {
+                        let (k, v) = h.iter().next().unwrap();
+                        let key = match k { Yaml::String(s) => s.clone(), Yaml::Integer(i) => format!("{}", i), _ => String::new() };
+                        out.push(json!({"char": key, "replace": list(v)}));
+                    }
+                }
+            }
+        }
+    }
+    Ok(Value::Array(out))
+}
+
 /// every rule of a speech / braille rule file as {name, tag, match, replace}: replace is the AST of unicode_ast with
 /// computed items carrying their xpath ({"x": "*[2]"}); include: entries are reported as {"include": file}
 fn rules_ast(path: &str) -> Result<Value, String> {
@@ -365,6 +453,9 @@ pub fn dispatch(op: &[Value]) -> Result<Value, String> {
         "h_unicode_entries" => unicode_entries(&s(op, 1)),
         "h_unicode_ast" => unicode_ast(&s(op, 1)),
         "h_rules_ast" => rules_ast(&s(op, 1)),
+        "h_rules_tast" => rules_tast(&s(op, 1)),
+        "v_trace_eval" => { libmathcat::verif::speech::trace_eval(b(op, 1)); Ok(Value::Null) }
+        "v_take_eval_log" => Ok(json!(libmathcat::verif::speech::take_eval_log())),
         // file-system steps of a fault history (C14): they act on a private copy of Rules/ only
         "h_write" => std::fs::write(s(op, 1), s(op, 2)).map(|_| Value::Null).map_err(|e| format!("HARNESS: {}", e)),
         "h_remove" => std::fs::remove_file(s(op, 1)).map(|_| Value::Null).map_err(|e| format!("HARNESS: {}", e)),
